@@ -80,6 +80,8 @@ type World struct {
 	Cut           map[[2]uint64]bool
 	// Durable counts the durable writes each node has started so far.
 	Durable map[uint64]int
+	// Opposite: transitions run under the opposite of the default schedule (see oppositePick).
+	Opposite bool
 }
 
 type Violation struct{ Key, Desc string }
@@ -90,6 +92,13 @@ type crashSpec struct {
 }
 
 type defaultPick struct{}
+
+// oppositePick is the opposite of the default schedule inside a transition: the LAST enabled alternative first (threads
+// started later run earlier, the thread that just ran is continued last). A second, equally arbitrary member of the family
+// of schedules a transition stands for - whatever depends on who gets there first comes out the other way round.
+type oppositePick struct{}
+
+func (oppositePick) Pick(s *vrt.Sched, alts []vrt.Alt, costs []int) int { return len(alts) - 1 }
 
 func (defaultPick) Pick(s *vrt.Sched, alts []vrt.Alt, costs []int) int { return 0 }
 
@@ -178,7 +187,11 @@ func (w *World) run(id uint64, what string, f func()) {
 
 // Quiesce runs the default schedule until nothing is enabled.
 func (w *World) Quiesce() {
-	r := w.S.Run(defaultPick{}, nil)
+	var strat vrt.Strategy = defaultPick{}
+	if w.Opposite {
+		strat = oppositePick{}
+	}
+	r := w.S.Run(strat, nil)
 	if t := w.S.Panicked(); t != nil {
 		w.violate("panic:"+panicSite(t.Stack), "thread %s panicked: %v\n%s", t.Name, t.Panic, trim(t.Stack))
 		t.Panic = nil
